@@ -485,8 +485,8 @@ def case_history(ctx, c, family="hist"):
                     "sizes": [x.n for x in mon.gens]})
 
 
-FAMILIES = {"hist": (lambda ctx, c: case_history(ctx, c, "hist"), 1800, 16 * 8000),
-            "chain": (lambda ctx, c: case_history(ctx, c, "chain"), 700, 16 * 2500)}
+FAMILIES = {"hist": (lambda ctx, c: case_history(ctx, c, "hist"), 1800, 16 * 6000),
+            "chain": (lambda ctx, c: case_history(ctx, c, "chain"), 700, 16 * 2000)}
 
 
 def run_shard(ctx):
